@@ -1,7 +1,8 @@
 """C15 - every designed network yields a consistent OMS partition and spectrum map.
 
 B1  MC_OmsMap (Build -> Occupy* -> Align state machine, alignment clauses), MC_OmsBands (all band layouts; the two
-    formulations of "usable" agree), MC_OmsPartition (all 3-site line graphs; partition clauses on the oracle).
+    formulations of "usable" agree), MC_OmsPartition (all 3-site line graphs, one pair of sites possibly joined by two
+    parallel routes; partition and pairing clauses on the oracle).
 B2  (a) every aligned state emitted by TLC is replayed on real OMS/Bitmap objects through align_grids and compared;
     (b) every band layout is put on a real designed line network and (c) every topology is designed for real;
     build_oms_list's result is projected and judged by Trace_OmsMap.
@@ -266,21 +267,23 @@ class BandBench:
 
 # -------------------------------------------------------------------------------------------- B2 (c) partition
 def topo_from_case(c):
-    """TLC case {'links': {'<<a, b>>': [types...]}} -> topology JSON and the expected per-link element lists"""
-    sites = sorted({int(x) for k in c['links'] for x in k.strip('<>').split(',')})
+    """TLC case {'links': {'<<a, b, route>>': [types...]}} -> topology JSON and the expected per-link element lists
+    (route 2 = a second, longer line between the same two ROADMs, on its own degrees)"""
+    keys = {k: [int(x) for x in k.strip('<>').split(',')] for k in c['links']}
+    sites = sorted({x for abr in keys.values() for x in abr[:2]})
     els, cx, expect = [], [], []
     for s in sites:
         els += [{'uid': f'trx {s}', 'type': 'Transceiver'}, {'uid': f'roadm {s}', 'type': 'Roadm'}]
         cx += [{'from_node': f'trx {s}', 'to_node': f'roadm {s}'}, {'from_node': f'roadm {s}', 'to_node': f'trx {s}'}]
     for k, chain in sorted(c['links'].items()):
-        a, b = [int(x) for x in k.strip('<>').split(',')]
+        a, b, route = keys[k]
         prev = f'roadm {a}'
         must = []
         for i, t in enumerate(chain):
-            uid = f'{t.lower()} ({a} -> {b}) #{i}'
+            uid = f'{t.lower()} ({a} -> {b}) #{i}' + ('' if route == 1 else f' route {route}')
             if t == 'Fiber':
                 els.append({'uid': uid, 'type': 'Fiber', 'type_variety': 'SSMF',
-                            'params': {'length': 60 + 10 * i, 'length_units': 'km', 'loss_coef': 0.2,
+                            'params': {'length': 60 + 10 * i + 25 * (route - 1), 'length_units': 'km', 'loss_coef': 0.2,
                                        'con_in': None, 'con_out': None}})
             elif t == 'Fused':
                 els.append({'uid': uid, 'type': 'Fused', 'params': {'loss': 1}})
@@ -443,7 +446,7 @@ def run(chk):
     layouts = r.emitted
     r = tlc.run('MC_OmsPartition', cfg_text=(tlc.SPEC / 'MC_OmsPartition.cfg').read_text() + 'INVARIANT Emit\n',
                 timeout=900, tag='c15-part')
-    chk.add_mc('MC_OmsPartition (all 3-site line graphs)', r)
+    chk.add_mc('MC_OmsPartition (all 3-site line graphs, at most one pair of sites joined by two parallel routes)', r)
     topos = r.emitted
     chk.exhaustive = True
     # ---- B2 (a) alignment: emission with one Occupy step (quick) / two (thorough)
@@ -484,7 +487,9 @@ def run(chk):
                         observed=[m['runs'] for m in recs[0]['maps']]))
     # ---- B2 (c) topologies
     if quick and len(topos) > 120:
-        topos = rng.sample(topos, 120)
+        # a third of the sample from the layouts with two parallel routes between one pair of ROADMs
+        single, parallel = [c for c in topos if not c['par']], [c for c in topos if c['par']]
+        topos = rng.sample(single, min(80, len(single))) + rng.sample(parallel, min(40, len(parallel)))
     eq = equipment()
     from gnpy.topology.spectrum_assignment import build_oms_list
     for i, c in enumerate(topos):
@@ -498,9 +503,10 @@ def run(chk):
             chk.violation(f'B2|topology-raises|{type(e).__name__}', dict(case=c, exception=f'{type(e).__name__}: {e}'))
             continue
         rec = project(f'topo-{i}', net, oms_list, expect)
-        rec['sig'] = 'generated-topology'
+        rec['sig'] = 'generated-topology' + ('-parallel-routes' if c['par'] else '')
         recs.append(rec)
     chk.cov['b2_topologies'] = len(topos)
+    chk.cov['b2_topologies_with_parallel_routes'] = sum(1 for c in topos if c['par'])
     chk.traces += judge(recs, chk, 'B2')
     # ---- B3 shipped networks
     srecs = shipped_records(chk)
@@ -509,7 +515,8 @@ def run(chk):
     chk.cov['b3_networks'] = len(srecs)
     chk.assume('band layouts whose amplifier bands merely touch (single common index) are outside the domain')
     chk.assume('networks without any ROADM (point-to-point transceiver lines) are outside the property: it speaks of OMS between ROADMs')
-    chk.assume('every OMS has a non-empty common band; no parallel ROADM-to-ROADM links (reverse pairing is by end points)')
+    chk.assume('every OMS has a non-empty common band; between two ROADMs joined by parallel routes every OMS must have a partner '
+               'of the opposite direction, but which of the parallel opposite OMS it is is not judged (reverse pairing is by end points)')
     chk.assume('B2(b) sets Edfa.params.bands of a really designed line network to the layout (grid-aligned frequencies)')
 
 
